@@ -720,8 +720,29 @@ def check_graph(run, rng, spec: Dict[str, Any], engine: str, case: Dict[str, Any
         raise  # a harness error: the spec must be buildable (surfaces as INCONCLUSIVE)
     if len(exp) != len(spec['elems']):
         raise AssertionError(f'harness: built graph has {len(exp)} reachable elements, spec has {len(spec["elems"])}')
-    for cfg in graph_configs(rng, feat, all_modes):
-        roundtrip(run, root, exp, feat, cfg, case, engine)
+    for n_cfg, cfg in enumerate(graph_configs(rng, feat, all_modes)):
+        parsed = roundtrip(run, root, exp, feat, cfg, case, engine)
+        if parsed is not None and n_cfg % 3 == 0:
+            # the graph the READER built is handed to the writer again: it describes the same graph (second generation),
+            # so parsing that gives the same snapshot once more
+            try:
+                b2 = io.BytesIO()
+                fmt_name, fmt_ver = cfg.get('fmt', ['dmx', 1])
+                if cfg['enc'] == 'binary':
+                    parsed.export_binary(b2, cfg['version'], fmt_name, fmt_ver, cfg['unicode'])
+                else:
+                    parsed.export_kv2(b2, fmt_name, fmt_ver, flat=cfg['flat'], unicode=cfg['unicode'], cull_uuid=cfg['cull'])
+                from srctools.dmx import Element as _El2
+                again = _El2.parse(io.BytesIO(b2.getvalue()), unicode=cfg['unicode'] == 'silent')[0]
+                d2 = diff_nodes(exp, snapshot(again), exact=cfg['enc'] == 'binary', uuids=cfg['enc'] == 'binary' or not cfg['cull'])
+            except Exception as exc:
+                run.violation(f'{cfg["enc"]}: exporting the parsed graph again raised {type(exc).__name__}: {exc}', key='second-generation-differs',
+                              engine=engine, case=dict(case, cfg=cfg))
+            else:
+                run.count('second_generation_roundtrips')
+                if d2 is not None:
+                    run.violation(f'{cfg["enc"]}: parse(export(parse(export(g)))) differs from g at {d2["path"]} ({d2["field"]}): want {d2["want"]!r} got {d2["got"]!r}',
+                                  witness=d2, key='second-generation-differs', engine=engine, case=dict(case, cfg=cfg))
     # the writers called with nothing but the file (every default argument): documented as version 5 / format "dmx" 1 /
     # ASCII, nested text with UUIDs - compared through the explicit configuration that spells those defaults out
     if not feat['non_ascii'] and not feat['nul']:
@@ -1079,7 +1100,7 @@ def main(run, shard=(0, 1)) -> None:
         name_attr_case(run)
     probe.report(run)
     probe.check_reached(run)
-    run.require('default_argument_exports', 'legacy_version_0_roundtrips', 'string_table_overflow_refused', 'binary_parses', 'kv2_parses', 'real_file_roundtrips', 'repeated_exports', 'graphs_re_exported_after_edits', 'independent_decodes_agree', 'to_kv1_calls', 'to_kv1_after_wire',
+    run.require('default_argument_exports', 'legacy_version_0_roundtrips', 'string_table_overflow_refused', 'second_generation_roundtrips', 'binary_parses', 'kv2_parses', 'real_file_roundtrips', 'repeated_exports', 'graphs_re_exported_after_edits', 'independent_decodes_agree', 'to_kv1_calls', 'to_kv1_after_wire',
                 'graphs_with_sharing', 'graphs_with_cycle', 'graphs_with_self_loop', 'graphs_with_nameless_elements', 'stub_occurrences', 'null_in_array_occurrences',
                 'empty_array_occurrences', 'scalar_matrix_occurrences', 'name_needs_escape_occurrences',
                 'unicode_string_array_occurrences', 'unicode_type_occurrences', 'ascii_mode_refused_non_ascii',
